@@ -2,7 +2,7 @@ INIT MInit
 NEXT MNext
 CONSTANTS
   Bounds <- BoundsQ
-  ReqSet <- ReqsSmall
+  ReqSet <- ReqsTiny
   ReadAttrs <- UrlAttrs
   Depth = 0
   SharedUriSlot = FALSE
